@@ -9,4 +9,5 @@ INVARIANT DfsAgrees
 INVARIANT ResolvedAsDocumented
 INVARIANT FailsOnlyWhenDangling
 INVARIANT FqnFileBased
+INVARIANT KindIsLocal
 ACTION_CONSTRAINT EmitCase
